@@ -345,6 +345,47 @@ def run(prog, run):
                                           '%s writes %s names with %s but its reader uses no inverse of it' % (rec, kind, fq))
     run.extra['codec_classes_checked'] = nclasses
 
+    # ---- R1c: attributes paired with their element context (where both sides are known)
+    r1c = run.rule('C01.R1c', 'an attribute written inside element E is read from E (not merely from some other element of the class), '
+                              'wherever the element is identifiable on both sides', floor=175)
+    iq_records = {r for r in prog.records if 'QXmppIq' in codec.record_chain(prog, r)}
+    for rec, v in sorted(classes.items()):
+        W = codec.Collected()
+        wcl = codec.closure(prog, v['writers'], rec, None)
+        for f in wcl:
+            codec.collect_writes(f, W)
+        wm = {f.id for f in v['writers']}
+        rm = {f.id for f in v['readers'] if f.name in ('parse', 'fromDom')}
+        reads = set()
+        for f in codec.closure(prog, v['readers'], rec, None):
+            for i, n in f.calls():
+                if f.cname(n) in ('QDomElement::attribute', 'QDomElement::hasAttribute') and n.get('obj') is not None and n.get('args'):
+                    for nm in codec.names_of(f, n['args'][0]):
+                        if nm[0] == 'lit':
+                            for t in codec.reader_context(f, n['obj'], i, rm, iq_records):
+                                reads.add((t, strip_prefix(nm[1])))
+        done = set()
+        for kind, nm, f, i, ex in W.items:
+            if kind != 'attr' or nm[0] != 'lit' or nm[1].startswith('xmlns'):
+                continue
+            if ex.get('const_value') and decoration_of_element(f, i, W):
+                continue
+            a = strip_prefix(nm[1])
+            ctxs = codec.writer_context(f, i, W, wm)
+            rc = {t for t, x in reads if x == a}
+            if not rc or '*' in ctxs or '*' in rc:
+                continue        # level-1 territory, or context unknown on one side
+            key = (a, tuple(sorted(ctxs)))
+            if key in done:
+                continue
+            done.add(key)
+            run.instance(r1c)
+            if ctxs & rc:
+                run.ok(r1c, f.loc(i), '%s @%s in <%s/>' % (rec, a, '|'.join(sorted(ctxs - {'ROOT'})) or 'root'))
+            else:
+                run.violation(r1c, '%s#attr:%s@%s' % (rec, a, '|'.join(sorted(ctxs - {'ROOT'}))), f.loc(i),
+                              '%s writes attribute "%s" on <%s/> but reads it only from <%s/>' % (rec, a, '|'.join(sorted(ctxs)), '|'.join(sorted(rc))))
+
     rule_tables(prog, run)
     rule_enum_functions(prog, run, to_fns, from_fns)
     rule_int_bounds(prog, run)
